@@ -43,7 +43,12 @@ theorem sie_only_inside_window (cfg : Cfg) (t0 : Int) (req : Req) (e : Entry) (k
         (fun r => .ret r)) tr (.resp x))
     (hstale : Header.get x.header sStatusHeader = CacheStatus.stale.value) :
     mv = false ∧ (∀ r t1 b, ans = .resp r t1 b → isStaleErrorAllowed r.status = true) ∧
-    ∃ n tfail, (Spec.directiveSeconds modelReader e.resp.header (str% "stale-if-error") = some n ∨
+    ∃ n tfail, (ans = .err tfail ∨ ∃ r b, ans = .resp r tfail b) ∧
+      -- must-revalidate does not apply AT THE INSTANT OF THE FAILURE either (the response may have become
+      -- stale while the origin was being asked)
+      (staleAt (transportFreshness cfg.glue t0 e (parseCC req.header) (parseCC e.resp.header)).1 tfail &&
+        (parseCC e.resp.header).mustRevalidate) = false ∧
+      (Spec.directiveSeconds modelReader e.resp.header (str% "stale-if-error") = some n ∨
           Spec.directiveSeconds modelReader req.header (str% "stale-if-error") = some n) ∧
       Spec.withinWindow modelReader cfg.glue.parseTime (Spec.storedOfEntry e) tfail n = true := by
   have htf := transport_fields_le cfg.glue t0 e (parseCC req.header) (parseCC e.resp.header)
@@ -58,7 +63,7 @@ theorem sie_only_inside_window (cfg : Cfg) (t0 : Int) (req : Req) (e : Entry) (k
     · rename_i hc
       simp only [Bool.and_eq_true, decide_eq_true_eq, Bool.not_eq_true'] at hc
       obtain ⟨n, hn, hw⟩ := sie_sound_gen cfg.glue t0 t1 e req.header _ (hle' t1 rfl) hs hT htf.1 htf.2.1 htf.2.2 hc.2
-      exact ⟨hc.1.2, (fun r t b hh => by cases hh), ⟨n, t1, hn, hw⟩⟩
+      exact ⟨hc.1.1.2, (fun r t b hh => by cases hh), ⟨n, t1, Or.inl rfl, hc.1.2, hn, hw⟩⟩
     · cases h
   · rename_i r t1 bodyOk
     split at h
@@ -77,7 +82,7 @@ theorem sie_only_inside_window (cfg : Cfg) (t0 : Int) (req : Req) (e : Entry) (k
       · rename_i hc
         simp only [Bool.and_eq_true, decide_eq_true_eq, Bool.not_eq_true'] at hc
         obtain ⟨n, hn, hw⟩ := sie_sound_gen cfg.glue t0 t1 e req.header _ (hle r t1 bodyOk rfl) hs hT htf.1 htf.2.1 htf.2.2 hc.2
-        exact ⟨hc.1.2, (fun r' t b hh => by cases hh; exact hc.1.1.1), ⟨n, t1, hn, hw⟩⟩
+        exact ⟨hc.1.1.2, (fun r' t b hh => by cases hh; exact hc.1.1.1.1), ⟨n, t1, Or.inr ⟨_, _, rfl⟩, hc.1.2, hn, hw⟩⟩
       · exfalso
         split at h
         · obtain ⟨t1', t2', ht, _, _, hk⟩ := storeResponse_run _ _ _ _ _ _ _ _ _ _ _ _ h
@@ -91,7 +96,9 @@ theorem sie_only_inside_window (cfg : Cfg) (t0 : Int) (req : Req) (e : Entry) (k
           rw [hx] at hstale; exact hne3 hstale.symm
 
 /-- Liveness: when the validation of a stored response fails — the origin call errors or answers a
-    status of the table — validation is not mandatory, the request carries no min-fresh, the validation
+    status of the table — validation is not mandatory (in particular the response carries no must-revalidate,
+    `hmr`: with it the answer depends on whether the response is stale at the instant of the failure, which
+    `sie_only_inside_window` states), the request carries no min-fresh, the validation
     was reached because the response is stale or the request's max-age (of any value) is exceeded, and the
     stored response or the request carries stale-if-error = N with the response inside that window by
     the RFC definitions at the instant of the failure, then the exchange returns the stored response:
@@ -101,6 +108,7 @@ theorem sie_only_inside_window (cfg : Cfg) (t0 : Int) (req : Req) (e : Entry) (k
 theorem sie_serves (cfg : Cfg) (t0 t1 : Int) (req : Req) (e : Entry) (key : Str) (refs : List Ref) (ri : Option Nat)
     (ans : OriginAns) (hle : t0 ≤ t1) (hrt : e.receivedAt ≤ t0)
     (hs : e.resp.status ≠ 304) (hT : TimesOK e) (hmf : (parseCC req.header).minFresh = none)
+    (hmr : (parseCC e.resp.header).mustRevalidate = false)
     (hreach : (transportFreshness cfg.glue t0 e (parseCC req.header) (parseCC e.resp.header)).2 = true ∨
               (transportFreshness cfg.glue t0 e (parseCC req.header) (parseCC e.resp.header)).1.isStale = true) (d : Int)
     (hd : Spec.httpTime cfg.glue.parseTime e.resp.header sDate = some d)
@@ -139,14 +147,14 @@ theorem sie_serves (cfg : Cfg) (t0 t1 : Int) (req : Req) (e : Entry) (key : Str)
     simp only []
     rcases hfail with h | ⟨r, b, h, hst⟩
     · subst h
-      simp only [hc, Bool.not_false, Bool.and_true, decide_true, ↓reduceIte]
+      simp only [hc, hmr, Bool.and_false, Bool.not_false, Bool.and_true, decide_true, ↓reduceIte]
       exact Run.ret _
     · subst h
       have h304 : r.status ≠ 304 := by
         intro h3
         rw [h3] at hst
         revert hst; decide
-      simp only [h304, decide_false, Bool.and_false, Bool.false_eq_true, ↓reduceIte, hst, hc, Bool.not_false, decide_true, Bool.and_self]
+      simp only [h304, decide_false, Bool.and_false, Bool.false_eq_true, ↓reduceIte, hst, hc, hmr, Bool.not_false, decide_true, Bool.and_self]
       exact Run.ret _
   · rw [← hage]; exact hf.2.2
 
